@@ -3,11 +3,26 @@
    OCaml's own); no Extract Constant; N, Z, positive, nat, byte stay Coq inductives. *)
 From Coq Require Extraction.
 From Coq Require Import ExtrOcamlBasic.
-From GE Require Import Lib.Bytes Lib.Varint Lib.Sha256 Model.Tx Model.TxHash.
+From GE Require Import Lib.Bytes Lib.Varint Lib.Sha256 Model.Tx Model.TxHash Model.PsetV0 Model.Sighash.
+From GE Require Import Model.PsetV2.
+From GE Require Import Model.Scalar.
+From GE Require Import Spec.PartialMerkle Model.Merkle Model.Pegin.
+From GE Require Import Model.Ripemd160 Model.Spend.
+From GE Require Import Model.Blind.
 Extraction Language OCaml.
 Extraction "model.ml"
   Byte.of_N Byte.to_N N.of_nat N.to_nat Z.of_N
   sha256 dsha256 midstate256 tagged_hash
   varint p_varint
   ser_full ser_tx parse_tx size_tx weight vsize discount_weight discount_vsize_go
-  wf_tx norm_tx canonical_flag has_witness txid wtxid copy_tx.
+  wf_tx norm_tx canonical_flag has_witness txid wtxid copy_tx
+  digest_legacy digest_v0 digest_v1 preimage_legacy preimage_v0 preimage_v1
+  v0_ser v0_parse v0_wf v0_wf_core v0_norm v0_canon
+  parse_pset ser_pset wf_pset norm_pset global_tbl input_tbl output_tbl
+  go_calc_offset go_sub_scalars go_add_offset sout_of sarg_after sreturns_global
+  mkl_build mkl_root mkl_run mkl_claim
+  ripemd160 hash160
+  sign0 finalize0 maybe_finalize0 finalize_all0 maybe_finalize_all0 extract0 hop0_st
+  sign2 sign_tap_key2 sign_tap_script2 finalize2 maybe_finalize2 finalize_all2 maybe_finalize_all2
+  extract2 unsigned_tx2 hop2_st strip_tx satisfies empty_pin
+  bl_party_step bl_balanced bl_sc bl_enc b0_blind b0_balanced.
